@@ -56,6 +56,12 @@ def check(run):
                     interior.append(pos); pos += 1
             pick = {0, len(recs) - 1} | set(interior[:6 if quick else 60]) | set(p + 1 for p in interior[:3]) | set(max(0, p - 1) for p in interior[:3])
             pick |= set(rng.randrange(len(recs)) for _ in range(6 if quick else 80))
+            # entries that tie with their neighbour on the first column under the index's collation without being the same bytes
+            # (case / trailing spaces: the later columns decide), and entries of one column value whose neighbours differ
+            k1 = lambda r: [(r[0], flags[0][0], flags[0][1])] if r and flags else []
+            ties = [p for p in range(len(recs) - 1) if recs[p] and recs[p + 1] and recs[p][0] != recs[p + 1][0] and sqlcmp.equal(k1(recs[p]), recs[p + 1][:1])]
+            for p in ties[:(8 if quick else 80)]:
+                pick |= {p, p + 1}
             pick = sorted(p for p in pick if 0 <= p < len(recs))
             keys = []
             for p in pick:
